@@ -1,6 +1,7 @@
 package lang
 
 import (
+	"encoding/json"
 	"fmt"
 	"os"
 	"strings"
@@ -48,4 +49,9 @@ func compileDecls(t *rapid.T, u *mrogen.Universe) *syntax.Ast {
 		t.Fatalf("GENERATOR: universe does not compile: %v\n%s", err, src)
 	}
 	return ast
+}
+
+func jsonMarshal(v any) (string, error) {
+	b, err := json.Marshal(v)
+	return string(b), err
 }
